@@ -74,7 +74,36 @@ func main() {
 	sub = append(sub, u16(5, 6)...)         // glyphIdArray
 	sub[2], sub[3] = byte(len(sub)>>8), byte(len(sub))
 	cmap := append(u16(0, 1, 3, 1, 0, 12), sub...)
-	if try("cmap format 4", replace("common/Roboto-BoldItalic.ttf", "cmap", func([]byte) []byte { return cmap })) {
+	bad := try("cmap format 4", replace("common/Roboto-BoldItalic.ttf", "cmap", func([]byte) []byte { return cmap }))
+
+	// second defect: the number of glyph indices of a segment is end-start+1 computed in uint16: for the single segment
+	// 0..0xFFFF it wraps to 0, the (non nil, empty) index list is accepted and every Lookup indexes it
+	sub = u16(4, 0, 0, 2 /* segCountX2 */, 2, 0, 0)
+	sub = append(sub, u16(0xFFFF)...) // endCode
+	sub = append(sub, u16(0)...)      // reservedPad
+	sub = append(sub, u16(0)...)      // startCode
+	sub = append(sub, u16(0)...)      // idDelta
+	sub = append(sub, u16(2)...)      // idRangeOffset: the glyph index array follows
+	sub = append(sub, u16(5, 6)...)   // glyphIdArray
+	sub[2], sub[3] = byte(len(sub)>>8), byte(len(sub))
+	cmap2 := append(u16(0, 1, 3, 1, 0, 12), sub...)
+	func() {
+		file := replace("common/Roboto-BoldItalic.ttf", "cmap", func([]byte) []byte { return cmap2 })
+		fnt, err := font.ParseTTF(bytes.NewReader(file))
+		if err != nil {
+			fmt.Println("ok cmap format 4 full range, error:", err)
+			return
+		}
+		defer func() {
+			if r := recover(); r != nil {
+				fmt.Println("DEFECT cmap format 4 full range: the file loads and NominalGlyph panics:", r)
+				bad = true
+			}
+		}()
+		g, ok := fnt.NominalGlyph('a')
+		fmt.Println("ok cmap format 4 full range", g, ok)
+	}()
+	if bad {
 		os.Exit(1)
 	}
 }
